@@ -7,6 +7,7 @@ From Coq Require Import NArith.
 From Synnax Require Import Generated.Consts_C15 Core.Channel Core.ChannelKeys Core.ChannelAssign Core.ChannelInv
   Core.ChannelShrink Core.ChannelCreate Core.ChannelHistory Core.ChannelCons Core.ChannelConsCreate
   Core.ChannelNames Core.ChannelWitness.
+From Synnax Require Core.Channel Core.ChannelSrc Generated.Consts_C15.
 Local Open Scope N_scope.
 
 (* (1) A key embeds its leaseholder: NewKey is injective on (node <= 4095, local key <= 2^20-1) and
@@ -234,3 +235,18 @@ Proof.
   split; [exact P1|]. split; [exact P2|]. split; [repeat constructor; vm_compute; eauto|].
   destruct w_ops_facts as (H1 & H2 & H3 & H4 & H5 & _). auto.
 Qed.
+
+(* ---- tie to the source by translation: the channel-key arithmetic of the model (Core/Channel.v new_key /
+   leaseholder / local_key / free test) is EQUAL to the Gallina that translator/go2coq regenerates from
+   core/pkg/distribution/channel/channel.go, aspen/internal/node/node.go, x/go/math, x/go/types on every run
+   (Generated/Src_ChanKey.v; proofs in Core/ChannelSrc.v): NewKey for all arguments, the projections for every
+   uint32 key. *)
+Theorem C15_channel_keys_from_source :
+  (forall lease lkey, ChannelSrc.S.channel_NewKey (Z.of_N lease) (Z.of_N lkey) = Z.of_N (Channel.new_key lease lkey)) /\
+  (forall k, (k < 2 ^ 32)%N -> ChannelSrc.S.Key_Leaseholder (Z.of_N k) = Z.of_N (Channel.leaseholder k)) /\
+  (forall k, (k < 2 ^ 32)%N -> ChannelSrc.S.Key_LocalKey (Z.of_N k) = Z.of_N (Channel.local_key k)) /\
+  (forall k, (k < 2 ^ 32)%N -> ChannelSrc.S.Key_Free (Z.of_N k) = (Channel.leaseholder k =? Consts_C15.node_free)%N) /\
+  ChannelSrc.S.math_MaxUint20 = Z.of_N Consts_C15.max_local /\
+  ChannelSrc.S.node_KeyBootstrapper = Z.of_N Consts_C15.node_boot.
+Proof. exact ChannelSrc.channel_keys_from_source. Qed.
+Print Assumptions C15_channel_keys_from_source.
